@@ -33,6 +33,12 @@ def ones_complement_checksum(byte_arr: bytearray) -> bytearray:
 def calculate_checksum_udp(packet: Packet):
     logging.info("")
     logging.info("UDP Checksum")
+
+    # RFC 768: an all zero checksum field means that the sender generated no checksum (IPv4 only, RFC 8200 forbids it
+    # for IPv6): there is nothing to verify, the datagram is not a bad one
+    if not packet.ipv6_packet and packet.udp.sum == 0:
+        return True
+
     pseudo_header = bytearray(b'')
 
     # IPv4
